@@ -23,6 +23,24 @@ type Program struct {
 	Funcs   map[string]*ssa.Function // pkgpath.Name -> function (incl. methods as (*T).M / T.M, closures as F$1)
 	CS      *Contracts
 	RepoDir string
+	lines   map[string][]string
+}
+
+func (p *Program) fileLines(name string) []string {
+	if p.lines == nil {
+		p.lines = map[string][]string{}
+	}
+	if l, ok := p.lines[name]; ok {
+		return l
+	}
+	data, err := os.ReadFile(name)
+	if err != nil {
+		p.lines[name] = nil
+		return nil
+	}
+	l := strings.Split(string(data), "\n")
+	p.lines[name] = l
+	return l
 }
 
 func LoadProgram(repoDir string, patterns []string) (*Program, error) {
